@@ -94,6 +94,43 @@ def flatten_values(eng, d, line):
     return nl
 
 
+def sum_list(eng, l, start, line):
+    """sum(<list of int>[, start]): the sum is not computed, it is the value of the uninterpreted function
+    listsum(row, n) ("sum of row[0..n)"), known through facts every finite sum satisfies, stated for this term (closed
+    over the bound variables when a comprehension is being summarised for a generic element):
+      n = 0 -> 0;  n = 1 -> row[0];
+      all cells >= 0 -> the sum is >= 0, >= every cell and >= the sum of any two distinct cells;
+      append (syntactic shape of the row, like setsum): listsum(Store(r0, n-1, x), n) = listsum(r0, n-1) + x."""
+    if l.ety != INT:
+        raise Unsupported(f'sum() over a symbolic list of {l.ety} at line {line}')
+    f = z3.Function('listsum', arr(I, I), I, I)
+    facts = []
+
+    def term(row, n, depth):
+        row, n = z3.simplify(row), z3.simplify(n)
+        s = f(row, n)
+        j, j2 = z3.Const('j!sum', I), z3.Const('j2!sum', I)
+        inr = lambda x: z3.And(0 <= x, x < n)
+        nonneg = z3.ForAll([j], z3.Implies(inr(j), row[j] >= 0))
+        facts.append(z3.Implies(n <= 0, s == 0))
+        facts.append(z3.Implies(n == 1, s == row[0]))
+        facts.append(z3.Implies(nonneg, z3.And(
+            s >= 0, z3.ForAll([j], z3.Implies(inr(j), s >= row[j])),
+            z3.ForAll([j, j2], z3.Implies(z3.And(0 <= j, j < j2, j2 < n), s >= row[j] + row[j2])))))
+        if z3.is_store(row) and depth < 16:
+            r0, i, x = row.children()
+            if z3.is_true(z3.simplify(i + 1 == n)):
+                facts.append(z3.Implies(i >= 0, s == term(r0, i, depth + 1) + x))
+        return s
+    total = term(eng.list_data(l)[1][l.ref], eng.list_len(l), 0)
+    qvars = [v for vs, _ in eng.generic_scopes for v in vs]
+    body = z3.And(facts)
+    eng.run.assume(z3.ForAll(qvars, body) if qvars else body, silent=True)
+    if start == 0 and not isinstance(start, bool):
+        return SV(total, INT)
+    return eng.binop(ast.Add(), start, SV(total, INT), line)
+
+
 def _key_of(eng, key, val, line):
     if key is None:
         return val
